@@ -42,7 +42,8 @@ def run_c01(ctx):
                 ctx.sample({"lenient_form": c["name"], "outcome": len_out[c["name"]], "text": h.get("text", "")[-300:]})
     ctx.extra["lenient_forms_outcome"] = len_out
     # random multi-action domains in random layouts, behaviour observed through short histories
-    rc = [gen_hist.gen_case(ctx.seed, 50000 + i, n_ops=8) for i in range(100 if quick else 2500)]
+    # (forall effects whose bound variable re-uses a parameter's name are generated here only)
+    rc = [gen_hist.gen_case(ctx.seed, 50000 + i, n_ops=8, with_shadow=True) for i in range(100 if quick else 2500)]
     for c in rc:
         c["layout"] = rng.randrange(1 << 30)
         c["weights"] = "chain"
